@@ -62,7 +62,8 @@ def widen(draw, spec):
 def strategy(tier):
     @st.composite
     def _s(draw):
-        spec = draw(S.any_spec(families=("nlp", "qp", "degenerate", "infeasible"), max_n=4 if tier == "quick" else 6, max_m=3))
+        # (intbox: integer-valued variable bounds handed over as integer-typed arrays)
+        spec = draw(S.any_spec(families=("nlp", "nlp", "qp", "qp", "degenerate", "infeasible", "intbox"), max_n=4 if tier == "quick" else 6, max_m=3))
         if draw(st.booleans()):
             spec = draw(widen(spec))
         n, m = spec["n"], spec["m"]
@@ -101,6 +102,11 @@ def strategy(tier):
             scaling = {"kind": "none"}
         else:
             scaling = {"kind": kind, "primal": [draw(dyadic(-6, 6)) for _ in range(n)], "dual": [draw(dyadic(-6, 6)) for _ in range(m)]}
+        if draw(st.integers(0, 2)) == 0:
+            # callbacks that hand out one memoised object per argument: every point is evaluated twice (through the
+            # problem and through the evaluator), so an object rescaled in place by the first evaluation shows in the second
+            spec = dict(spec)
+            spec["policy"] = {k: draw(st.sampled_from(["memo", "memo", "fresh"])) for k in ("obj_grad", "cons", "cons_jac", "lag_hess")}
         r = Ref(spec)
         ns = sum(1 for i in range(m) if r.cl[i] != r.cu[i])
         pts = []
